@@ -280,6 +280,8 @@ def _close(ctx, name, ratio, key, what, w, mon):
         _WORST[wk] = ratio
     if _CAL is not None:
         _CAL.append((wk, ratio, _LAST[0], _LAST[1], w if ratio > 30 else None))
+    if TOL[name] >= ratio > 0.05 * TOL[name]:
+        ctx.add_to_set("near_miss", f"{wk}: {ratio:.3g} of {TOL[name]:g} allowed units :: {json.dumps(w)[:1200]}")
     return ctx.check(ratio <= TOL[name], key, f"{what}: error = {ratio:.3g} units, allowed {TOL[name]:g} units "
                      f"(unit = rtol*a*(1+n_rev)^2/(1-e))", w, mon=mon)
 
